@@ -9,12 +9,14 @@ open Lean TFVerif TFVerif.TF TFVerif.Driver
 abbrev V := Nat
 abbrev Fr := Frame (Feat V) V
 
-/-- `torch.isclose(a, b, rtol=1e-5, atol=1e-8, equal_nan)` on one pair of entries. -/
+/-- `torch.isclose(a, b, rtol=1e-5, atol=1e-8, equal_nan)` on one pair of entries:
+    `a == b  or  (isfinite(|a - b|) and |a - b| <= atol + rtol * |b|)` (ATen `isclose`): an infinite entry is close
+    only to the same infinity. -/
 def closeBits (equalNan : Bool) (a b : V) : Bool :=
   let x := floatOfBits a
   let y := floatOfBits b
   if x.isNaN || y.isNaN then equalNan && x.isNaN && y.isNaN
-  else x == y || (x - y).abs ≤ 1e-8 + 1e-5 * y.abs
+  else x == y || ((x - y).abs.isFinite && (x - y).abs ≤ 1e-8 + 1e-5 * y.abs)
 
 def ops : FeatOps (Feat V) := featOps (closeBits true)
 
@@ -129,8 +131,13 @@ def runOps (f : Fr) (prog : List Json) : Except String (List Json × Option Fr) 
   pure (outs, cur)
 
 /-- a part of a concatenation: a constructed frame (so `validate` runs) followed by row selections. -/
-def partOf (j : Json) : Except String (Option Fr) := do
-  let base ← parseFrame (← j.getObjVal? "frame")
+def partOf (j : Json) (common : Option Fr := none) : Except String (Option Fr) := do
+  -- input plumbing only: a part without its own `frame` starts from the request's common frame (parsed once; keeps
+  -- requests with hundreds of parts of one large frame small)
+  let base ← match j.getObjVal? "frame", common with
+    | .ok f, _ => parseFrame f
+    | .error _, some c => pure c
+    | .error e, none => err e
   match Frame.make ops base.feats base.names base.y base.numRowsOpt with
   | none => pure none
   | some b =>
@@ -151,12 +158,15 @@ def handle (j : Json) : Except String Json := do
     pure (match (← makeOf (← j.getObjVal? "frame")) with | none => raises | some f => okJ (jFrame f))
   | "cat" =>
     let dim ← getInt j "dim"
-    let parts ← (← getArr j "parts").mapM partOf
+    let common ← match j.getObjVal? "frame" with
+      | .ok f => some <$> parseFrame f
+      | .error _ => pure none
+    let parts ← (← getArr j "parts").mapM (partOf · common)
     if parts.any Option.isNone then pure (Json.str "part-raises") else
     let r := Frame.cat ops (parts.filterMap id) dim
     match j.getObjVal? "eqto" with
     | .ok e =>
-      match (← partOf e) with
+      match (← partOf e common) with
       | none => pure (Json.str "part-raises")
       | some whole =>
         pure (match r with
